@@ -107,6 +107,42 @@ def _inner_ping(b, i, ends, out):
     return frame
 
 
+# ---- scheduled stage: data that has arrived is delivered although ANOTHER THREAD of the same connection is in the middle
+# of a (blocking) send - the deterministic scheduler of C11, every thread order x every single preemption
+def _sched_scenarios():
+    from props import racecommon as rc
+    text = rc.B(wire.TEXT, b"arrived while the other thread was sending").hex()
+    return {
+        "available_text_vs_large_sender": {"deflate": False, "threads": {"B": [["send_binary", rc.big_payload("B", 0, 70000)]]},
+                                           "loop": {"bytes": text, "idle_waits": 0}, "copts": {"ping_rate": 0}},
+        "available_text_vs_small_sender_deflate": {"deflate": True, "threads": {"B": [["send_text", rc.payload_for("B", 0)]]},
+                                                   "loop": {"bytes": text, "idle_waits": 0}, "copts": {"ping_rate": 0}},
+    }
+
+
+def _sched_judge(scn, out):
+    if out.aborted:
+        return "hang", out.aborted
+    for name, err in out.errors.items():
+        return "escaped_exception", "thread %s: %r" % (name, err)
+    for name, st_ in out.states.items():
+        if st_ not in ("done", "parked"):
+            return "deadlock", "thread %s ended in state %s" % (name, st_)
+    marks = [m for m in out.loop_marks if m[0] == "text"]
+    if len(marks) != 1:
+        return "delivery_mismatch", "the text message was delivered %d times; loop events %s" % (len(marks), out.loop_events)
+    handed = [t for t in out.taken if t[1] == "B" and t[2] == "loop" and t[3] == "sendall.mid"]
+    if handed and len(out.send_log) >= 2:
+        # the event loop got the processor while the sender sat between the two halves of its socket write (holding
+        # the write lock): the message that had arrived must come out before the sender gets to finish its write
+        second_half = out.send_log[1][0]
+        if marks[0][2] > second_half:
+            return "delivered_late", ("the event loop ran while another thread was in the middle of a send, the text message "
+                                      "had arrived, but it was delivered only after that send had finished (wire log %d > %d)"
+                                      % (marks[0][2], second_half))
+    return None
+
+
 class C18(Prop):
     id = "C18"
     level = "exploration"
@@ -227,12 +263,41 @@ class C18(Prop):
                                    "bursts": [[4, {"kind": "few_large", "sizes": [70000, 10], "fragment": bool(fragment), "text": text,
                                                    "inner_ping": fragment == "ping_inside"}],
                                               [4, {"kind": "many_small", "n": 120, "rep": 10, "ping_every": 7, "shapes": [0, 4, 3, 1, 2]}]]}
+        from props.c11 import C11
+
+        class _Sched(C11):
+            id = "C18"
+
+            def scenarios(self_inner):
+                return _sched_scenarios()
+
+            def judge(self_inner, scn, out):
+                return _sched_judge(scn, out)
+
+            def bound2(self_inner):
+                return []
+
+            def first_use(self_inner):
+                return []
+        self._sched = _Sched()
+        inner = self._sched.enumerations(tier)[0]
+
+        def scheduled():
+            for c in inner.make():
+                yield dict(c, sched=True)
         return [Enumeration("sizes_x_records_grid", grid, exhaustive=True),
+                Enumeration("available_data_while_another_thread_is_inside_a_send", scheduled, exhaustive=True),
                 Enumeration("bursts_with_permessage_deflate_negotiated", with_deflate, exhaustive=True),
                 Enumeration("an_automatic_reply_cannot_be_written", failed_reply_writes, exhaustive=True),
                 Enumeration("bursts_followed_by_a_violating_frame", with_tail, exhaustive=True)]
 
     def run_case(self, case):
+        if case.get("sched"):
+            if not hasattr(self, "_sched"):
+                self.enumerations("quick")
+            inner = dict(case)
+            inner.pop("sched")
+            return self._sched.run_case(inner)
         tls = case["tls"]
         # cost bound: at most ~12000 reads per connection (tiny records only with small bursts)
         total = sum(len(burst_bytes(b)[0]) for _, b in case["bursts"])
